@@ -37,7 +37,18 @@ impl Tx {
         let body = rlp::encode(&Item::List(fields));
         match self.kind { Kind::Legacy => body, Kind::Eip2930 => [vec![1u8], body].concat(), Kind::Eip1559 => [vec![2u8], body].concat() }
     }
+    /// canonical description for the cross-validation trace
+    pub fn describe(&self) -> String {
+        let n = |x: &Nat| format!("\"{}\"", x.to_dec());
+        format!("{{\"kind\":{},\"chainId\":{},\"nonce\":{},\"gasPrice\":{},\"maxPriorityFeePerGas\":{},\"maxFeePerGas\":{},\"gas\":{},\"to\":{},\"value\":{},\"data\":{},\"accessList\":[{}]}}", match self.kind { Kind::Legacy => 0, Kind::Eip2930 => 1, Kind::Eip1559 => 2 }, self.chain_id.as_ref().map_or("null".to_string(), n), n(&self.nonce), n(&self.gas_price), n(&self.max_priority), n(&self.max_fee), n(&self.gas),
+            self.to.map_or("null".to_string(), |a| crate::trace::h(&a)), n(&self.value), crate::trace::h(&self.data), self.access_list.iter().map(|(a, s)| format!("[{},[{}]]", crate::trace::h(a), s.iter().map(|k| crate::trace::h(k)).collect::<Vec<_>>().join(","))).collect::<Vec<_>>().join(","))
+    }
     pub fn unsigned_payload(&self) -> Vec<u8> {
+        let o = self.unsigned_payload_raw();
+        if o.len() <= 3000 { crate::trace::rec("tx_unsigned", 1500, || (self.describe(), crate::trace::h(&o))); }
+        o
+    }
+    fn unsigned_payload_raw(&self) -> Vec<u8> {
         let mut f = self.base_fields();
         if self.kind == Kind::Legacy { if let Some(c) = &self.chain_id { f.push(rlp::uint(c)); f.push(rlp::uint(&Nat::zero())); f.push(rlp::uint(&Nat::zero())); } }
         self.wrap(f)
@@ -53,6 +64,11 @@ impl Tx {
         }
     }
     pub fn signed_payload(&self, odd: bool, r: &Nat, s: &Nat) -> Vec<u8> {
+        let o = self.signed_payload_raw(odd, r, s);
+        if o.len() <= 3000 { crate::trace::rec("tx_signed", 1500, || (format!("[{},{},\"{}\",\"{}\"]", self.describe(), odd, r.to_dec(), s.to_dec()), crate::trace::h(&o))); }
+        o
+    }
+    fn signed_payload_raw(&self, odd: bool, r: &Nat, s: &Nat) -> Vec<u8> {
         let mut f = self.base_fields();
         f.push(rlp::uint(&self.v(odd))); f.push(rlp::uint(r)); f.push(rlp::uint(s));
         self.wrap(f)
